@@ -77,3 +77,8 @@ func TestStartRace(t *testing.T) {
 	sub := vf.Cur().Sub("start-race", sprintf(rule, "targeted, with yield hooks: dispatcher start-up delay of 5-30 s, alerts submitted within a few ms of the start instant while group creation is held between its steps"), 20)
 	sysrun.Run(t, "C01", sub, sysrun.Family{Name: "start", Quick: 100, Thorough: 4000, NonTrivial: nt, Gen: startRace}, checkers)
 }
+
+func TestCreateRacesWithDestroyedGroup(t *testing.T) {
+	sub := vf.Cur().Sub("create-races-with-destroyed-group", sprintf(rule, "targeted, with yield hooks: ingestion of a firing alert is held between finding no group and publishing the one it built, while a resolved, old alert of the same group creates the group, which flushes, empties and is marked destroyed before the sweep removes it; the firing alert must not be lost"), 10)
+	sysrun.Run(t, "C01", sub, sysrun.Family{Name: "cdg", Quick: 60, Thorough: 3000, NonTrivial: nt, Gen: scen.CreateRacesWithDestroyedGroup}, checkers)
+}
